@@ -359,7 +359,7 @@ def make_mesh(kind, rng, general=False, size=2):
         return cls(p, m0.t)
     if kind in ('tet', 'hex'):
         cls = skfem.MeshTet if kind == 'tet' else skfem.MeshHex
-        m0 = cls.init_tensor(_ints(rng, 1), _ints(rng, 1), _ints(rng, 1 if kind == 'tet' else 2))
+        m0 = cls.init_tensor(_ints(rng, 1), _ints(rng, 1 if (kind == 'tet' or size < 2) else 2), _ints(rng, 1 if kind == 'tet' else 2))
         A = _linear(rng, 3)
         p = A @ m0.p
         if general and kind == 'tet':
